@@ -10,7 +10,9 @@
 (*    infos: <<[to, ev, seq, from, topic, src]>>    {info what=call}       *)
 (*    data : <<[to, topic, seq, from, webrtc, replace, content]>>          *)
 (*    pay  : <<[s, event, payload]>>                                       *)
-(*    st   : [configured, live, att, attG, onMe, per, msgs, call]]         *)
+(*    fault: an injected adapter fault fired during this step,             *)
+(*    hasFault: the behaviour contains a Fault step,                       *)
+(*    st   : [configured, live, att, attG, onMe, per, msgs, call, armed]]   *)
 (*   bad = names of C15 monitors (Call.tla) false on the REAL observation  *)
 (*         (pre-state, request, frames, post-state)       -> the verdict;  *)
 (*   div = components in which the real post-state / outputs differ from   *)
@@ -39,7 +41,7 @@ CanW(p) == p.st = "none" \/ ("W" \in S(p.want) /\ "W" \in S(p.given))
 Proj(st) ==
   [live |-> S(st.live), att |-> S(st.att), attG |-> S(st.attG), onMe |-> S(st.onMe),
    canW |-> [u \in Members |-> CanW(st.per[u])],
-   msgs |-> ProjMsgs(st.msgs), call |-> ProjCall(st.call)]
+   msgs |-> ProjMsgs(st.msgs), call |-> ProjCall(st.call), armed |-> st.armed]
 \* stored ids are 1..n without gaps in the explored domain (nothing is deleted): index = id
 MsgsShapeOk(st) == \A i \in DOMAIN st.msgs : st.msgs[i].seq = i
 
@@ -57,10 +59,14 @@ Obs(rec) == [code |-> RealCode(rec),
              data |-> {DataOf(P12Data(rec)[i]) : i \in DOMAIN P12Data(rec)}]
 
 \* ------------------------------------------------------------------ verdict
+\* calls of this behaviour (before step k) whose ending step was hit by an injected store fault
+EndedAt(j) == Trace[j - 1].st.call.active /\ (~Trace[j].st.call.active \/ Trace[j].st.call.seq # Trace[j - 1].st.call.seq)
+Lost(k) == IF ~Trace[k].hasFault THEN {}
+           ELSE {Trace[j - 1].st.call.seq : j \in {x \in (k - Trace[k].i + 1)..(k - 1) : Trace[x].fault /\ EndedAt(x)}}
 Check(k) ==
   LET rec == Trace[k] IN
-  IF rec.i = 0 THEN If(EndsOnceState(Proj(rec.st)), "EndsExactlyOnce:one_terminal_replacement_per_started_call")
-  ELSE Monitors(Proj(Trace[k - 1].st), rec.act, Obs(rec), Proj(rec.st))
+  IF rec.i = 0 THEN If(EndsOnceState(Proj(rec.st), {}), "EndsExactlyOnce:one_terminal_replacement_per_started_call")
+  ELSE MonitorsX(Proj(Trace[k - 1].st), rec.act, Obs(rec), Proj(rec.st), [fault |-> rec.fault, lost |-> Lost(k)])
 
 \* ------------------------------------------------------------------ binding
 Diverge(k) ==
@@ -74,7 +80,8 @@ Diverge(k) ==
             a == rec.act
             r == Step(pre, a)
             o == Obs(rec)
-        IN IF r.out.code = -1 THEN {}       \* request not modelled (prelude: NewGrp)
+        IN IF r.out.code = -1 \/ rec.fault THEN {}       \* request not modelled (prelude: NewGrp, Fault); the outcome under an injected
+                                                         \* store fault is judged by the monitors only
            ELSE (IF r.st.live # post.live THEN {"live"} ELSE {})
                 \cup (IF r.st.att # post.att THEN {"att"} ELSE {})
                 \cup (IF r.st.attG # post.attG THEN {"attG"} ELSE {})
@@ -82,6 +89,7 @@ Diverge(k) ==
                 \cup (IF r.st.canW # post.canW THEN {"canW"} ELSE {})
                 \cup (IF r.st.msgs # post.msgs THEN {"msgs"} ELSE {})
                 \cup (IF r.st.call # post.call THEN {"call"} ELSE {})
+                \cup (IF r.st.armed # post.armed THEN {"timer"} ELSE {})
                 \cup (IF r.out.code # -2 /\ r.out.code # o.code THEN {"code"} ELSE {})
                 \cup (IF ~(r.out.infos \subseteq o.infos /\ o.infos \subseteq r.out.infos \cup r.opt) THEN {"infos"} ELSE {})
                 \cup (IF r.out.data # o.data THEN {"data"} ELSE {})
